@@ -1213,7 +1213,60 @@ fn cmd_determinism(args: &[String]) {
         }
         frontier = next;
     }
-    let res = json!({"histories": histories, "texts": texts, "max_len": maxlen, "digest": format!("{:016x}", digest), "violation": violation, "sample": sample});
+    // wide variants (seed S_q19: a tie-break that only acts on more than four equal-size additions
+    // in one variant): 5..=12 additions per variant, which the length bound above never reaches
+    let mut wide = 0u64;
+    if violation.is_none() {
+        'wide: for k in 5..=12usize {
+            for pat in 0..WIDE_SHAPES.len() + 3 {
+                for s in 0..2usize {
+                    for second in 0..2usize {
+                        let (a, b) = (build_wide(k, pat, s, second), build_wide(k, pat, s, second));
+                        histories += 1;
+                        wide += 1;
+                        let oa: Vec<usize> = a.datum_definitions().map(|d| d.details().offset()).collect();
+                        let ob: Vec<usize> = b.datum_definitions().map(|d| d.details().offset()).collect();
+                        let (ta, tb) = (generate_all(&a), generate_all(&b));
+                        texts += ta.len() as u64;
+                        if oa != ob || ta != tb || a.to_string() != b.to_string() {
+                            violation = Some(json!({"wide_history": {"additions_per_variant": k, "shape_pattern": pat, "strategy": if s == 0 { "simple" } else { "basic" }, "second_variant": second == 1},
+                                "offsets_first": oa, "offsets_second": ob,
+                                "clauses": ["C19: the same request sequence replayed twice in one process gives different offsets or different generated text"]}));
+                            break 'wide;
+                        }
+                        for o in &oa { fnv(&mut digest, &o.to_le_bytes()); }
+                        for t in &ta { fnv(&mut digest, t.as_bytes()); }
+                    }
+                }
+            }
+        }
+    }
+    let res = json!({"histories": histories, "wide_histories": wide, "texts": texts, "max_len": maxlen, "digest": format!("{:016x}", digest), "violation": violation, "sample": sample});
     println!("{}", serde_json::to_string_pretty(&res).unwrap());
     exit(if violation.is_some() { 1 } else { 0 });
+}
+
+const WIDE_SHAPES: [(usize, usize); 7] = [(1, 1), (2, 2), (4, 4), (8, 8), (0, 1), (4, 1), (16, 8)];
+
+/// `k` additions in one variant (pattern < 7: all of one shape; otherwise shapes cycling with a
+/// stride), closed with strategy `s`; optionally a second variant that removes every third datum
+/// and adds `k` more of the same pattern.
+fn build_wide(k: usize, pat: usize, s: usize, second: usize) -> RecordDefinition<NativeDatumDetails> {
+    let mut b = GenericRecordDefinitionBuilder::<NativeDatumDetails>::new();
+    let shape = |i: usize| if pat < WIDE_SHAPES.len() { WIDE_SHAPES[pat] } else { WIDE_SHAPES[(i * (pat - WIDE_SHAPES.len() + 1)) % WIDE_SHAPES.len()] };
+    let strategy = || strategy_by_name(if s == 0 { "simple" } else { "basic" });
+    for i in 0..k {
+        let (size, align) = shape(i);
+        b.add_datum(format!("f{}", i), NativeDatumDetails::new(usize::MAX, TypeInfo { name: format!("T{}_{}", size, align), size, align }, true)).unwrap();
+    }
+    b.close_record_variant_with(strategy());
+    if second == 1 {
+        for i in (0..k).step_by(3) { b.remove_datum(DatumId::from(i)).unwrap(); }
+        for i in 0..k {
+            let (size, align) = shape(i + 1);
+            b.add_datum(format!("g{}", i), NativeDatumDetails::new(usize::MAX, TypeInfo { name: format!("T{}_{}", size, align), size, align }, true)).unwrap();
+        }
+        b.close_record_variant_with(strategy());
+    }
+    b.build()
 }
